@@ -21,6 +21,7 @@ import (
 	"encoding/json"
 	"fmt"
 	"io"
+	"net/url"
 	"os"
 	"path/filepath"
 	"strings"
@@ -185,6 +186,9 @@ func GetAllLookupFiles(ctx *fasthttp.RequestCtx) {
 
 func GetLookupFile(ctx *fasthttp.RequestCtx) {
 	lookupFilename := utils.ExtractParamAsString(ctx.UserValue("lookupFilename"))
+	if unescaped, err := url.PathUnescape(lookupFilename); err == nil {
+		lookupFilename = unescaped
+	}
 	if !isValidLookupFileName(lookupFilename) {
 		ctx.Error("Invalid file name", fasthttp.StatusBadRequest)
 		return
@@ -217,6 +221,9 @@ func GetLookupFile(ctx *fasthttp.RequestCtx) {
 
 func DeleteLookupFile(ctx *fasthttp.RequestCtx) {
 	lookupFilename := utils.ExtractParamAsString(ctx.UserValue("lookupFilename"))
+	if unescaped, err := url.PathUnescape(lookupFilename); err == nil {
+		lookupFilename = unescaped
+	}
 	if !isValidLookupFileName(lookupFilename) {
 		ctx.Error("Invalid file name", fasthttp.StatusBadRequest)
 		return
